@@ -5,7 +5,7 @@ import numpy as np
 from vmon import gen, drive, workloads as wl, env
 from vmon.harness import Result
 from vmon.probe import Hooks
-from vmon.stepmon import StepMonitor
+from vmon.stepmon import StepMonitor, sc_flows, byp_flows
 
 dassh = env.import_dassh()
 
@@ -32,7 +32,7 @@ RULE = ('random single assemblies and 7-position cores with random power '
         'are not power-cell bounds; non-trivial when power > 0 and >= 10 '
         'steps; distinct by (cells, order, normalisation, alignment, regions)')
 DECIDING = ['P1_delivered_equals_assigned', 'P2_assigned_equals_file_integral',
-            'P4_scaling_linearity']
+            'P4_scaling_linearity', 'P6_coolant_heatup_equals_power_used']
 CASE_TIMEOUT = {'quick': 200, 'thorough': 900}
 BUDGET = {'quick': 700, 'thorough': 3300}
 ASSUMPTIONS = ['non-negative generated profiles (DASSH clips negative '
@@ -64,6 +64,14 @@ def cases(tier, seed):
     for i in range(nlin):
         out.append({'name': 'linear-%d' % i, 'kind': 'linear',
                     'seed': [seed, 33, i]})
+    nh = 6 if tier == 'quick' else 120
+    for i in range(nh):
+        out.append({'name': 'history-%d' % i, 'kind': 'history',
+                    'seed': [seed, 35, i]})
+    nd = 16 if tier == 'quick' else 400
+    for i in range(nd):
+        out.append({'name': 'heatup-%d' % i, 'kind': 'heatup',
+                    'seed': [seed, 36, i]})
     for ds in ('single_asm_refl', 'single_asm_vac'):
         out.append({'name': 'varpow-' + ds, 'kind': 'varpow', 'dataset': ds,
                     'seed': [seed, 34, 0]})
@@ -199,6 +207,116 @@ def run_power(case, res):
     return feats
 
 
+def run_history(case, res):
+    """Several models built one after another in the same process from the
+    same power-file path: each must get the power its own input asks for
+    (different scaling, different normalisation, rewritten file)."""
+    rng = np.random.default_rng(case['seed'])
+    P, feats = wl.single_assembly(rng, tdep=False, max_rings=4, lf=False,
+                                  gap=wl.choose(rng, ['none', 'flow']),
+                                  vel=wl.loguniform(rng, 0.5, 5.0),
+                                  length=0.5)
+    key = {'kind': 'history'}
+    with drive.scratch() as d:
+        for rnd in range(4):
+            what = wl.choose(rng, ['scaling', 'norm', 'rewrite', 'same'])
+            if rnd == 0:
+                what = 'first'
+            if what == 'scaling':
+                P['power']['scaling'] = float(wl.choose(
+                    rng, [0.25, 0.5, 2.0, 3.0]))
+            elif what == 'norm':
+                P['power']['total_power'] = float(rng.uniform(0.2, 3.0) * 1e5)
+            elif what == 'rewrite':
+                P['power']['asm']['0']['total'] *= float(rng.uniform(0.5, 2))
+                P['power']['asm']['0']['seed_k0'] = int(rng.integers(1 << 30))
+            inp, r = drive.build(P, d, max_steps=MAX_STEPS)
+            exp, exp_tot = expected_assigned(P)
+            k = dict(key, round=rnd, change=what)
+            res.close('P3_core_total', r.total_power - exp_tot, abs(exp_tot),
+                      TOL, 'Reactor.total_power != requested core power x '
+                      'scaling (model built after others, same file path)',
+                      k, {'got': r.total_power, 'exp': exp_tot})
+            a = r.assemblies[0]
+            res.close('P2_assigned_equals_file_integral',
+                      a.total_power - exp[0], abs(exp[0]) + 1e-12, TOL,
+                      'Assembly.total_power != integral of the power file '
+                      '(model built after others, same file path)', k,
+                      {'got': a.total_power, 'exp': exp[0]})
+            if rnd == 3:
+                drive.sweep(r)
+                got = float(sum(a._power_delivered.values()))
+                res.close('P1_delivered_equals_assigned', got - exp[0],
+                          abs(exp[0]) + 1e-12, TOL, 'power delivered during '
+                          'the sweep != power assigned (model built after '
+                          'others)', dict(k, mech='aligned'))
+            res.tag('history_change=' + what)
+    res.nontrivial('hist/%s' % case['seed'][-1])
+    return feats
+
+
+def run_heatup(case, res):
+    """Power 'as used': with constant properties and an adiabatic outer
+    wall, the heat all coolant of the assembly picks up in a step is the
+    pin, coolant and duct-wall power of that step (wall temperatures are
+    solved first in the step and the walls store nothing)."""
+    rng = np.random.default_rng(case['seed'])
+    nd = int(wl.choose(rng, [1, 2, 2, 3]))
+    P, feats = wl.single_assembly(rng, tdep=False, max_rings=4, lf=False,
+                                  gap='none', regions=False, n_duct=nd,
+                                  vel=wl.loguniform(rng, 0.3, 5.0),
+                                  length=0.4)
+    for m in P['types'].values():
+        m['duct_material'] = 'steel_const'
+    sp = P['power']['asm']['0']
+    sp['frac'] = [0.6, 0.3, 0.1]
+    sp['shape'] = 'rand'
+    sp['comps'] = [1, 2, 3]
+    cp = gen.CP
+    key = {'n_duct': nd, 'byp': bool(feats.get('byp'))}
+
+    def on_step(rec):
+        reg = rec['reg']
+        pw = rec['pow'] or {}
+        if not hasattr(reg, 'subchannel'):
+            return
+        if reg.n_bypass and not np.sum(reg.byp_flow_rate) > 0:
+            # stagnant gap between walls: heat crosses it with a lag that
+            # C02 owns (known finding F11); not a statement about power
+            res.count('P6_skipped_stagnant_bypass_steps')
+            return
+        dz = rec['dz']
+        mdot = sc_flows(reg)
+        dH = float(np.sum(mdot * cp * (rec['post']['coolant_int']
+                                       - rec['pre']['coolant_int'])))
+        floor = 1e-6 * float(np.sum(mdot)) * cp * 700.0  # x tol: rounding of T
+        if reg.n_bypass:
+            for i in range(reg.n_bypass):
+                mb, _, _ = byp_flows(reg, i)
+                dH += float(np.sum(mb * cp * (
+                    rec['post']['coolant_byp'][i]
+                    - rec['pre']['coolant_byp'][i])))
+        q = sum(float(np.sum(pw[c])) for c in ('pins', 'cool', 'duct')
+                if pw.get(c) is not None)
+        res.close('P6_coolant_heatup_equals_power_used', dH - dz * q,
+                  dz * abs(q) + abs(dH) + floor, 1e-8,
+                  'coolant heat-up in a step != pin + coolant + duct-wall '
+                  'power of the step (adiabatic outer wall)', key,
+                  {'z': rec['z1'], 'dH': dH, 'heat': dz * q})
+
+    with drive.scratch() as d, Hooks() as hk:
+        inp, r = drive.build(P, d, max_steps=MAX_STEPS)
+        StepMonitor(hk, on_step)
+        drive.sweep(r)
+        a = r.assemblies[0]
+        if a.total_power > 0:
+            res.nontrivial('heatup/%d/%s/%s' % (nd, feats.get('nr'),
+                                                case['seed'][-1]))
+    res.tag('heatup_n_duct=%d' % nd)
+    res.tag('heatup_bypass_flow=%s' % bool(feats.get('byp')))
+    return feats
+
+
 def run_linear(case, res):
     """power x s => (T - T_in) x s for a constant-property problem."""
     rng = np.random.default_rng(case['seed'])
@@ -287,6 +405,10 @@ def run_case(case):
             feats = run_power(case, res)
         elif case['kind'] == 'linear':
             feats = run_linear(case, res)
+        elif case['kind'] == 'history':
+            feats = run_history(case, res)
+        elif case['kind'] == 'heatup':
+            feats = run_heatup(case, res)
         else:
             feats = run_varpow(case, res)
         res.sample({'case': case, 'features': feats})
